@@ -50,6 +50,16 @@ def sources():
         ("samename", os.path.join(core.VERIF, "sim", "c12", "schemas", "samename"), False, 4),
         ("samename_ledger", os.path.join(core.VERIF, "sim", "c12", "schemas", "samename", "ledger.xsd"), False, 2),
         ("harness_all", os.path.join(core.VERIF, "sim", "c12", "schemas"), True, 3),
+        ("features", os.path.join(core.VERIF, "sim", "c12", "schemas", "features"), False, 4),
+        ("symlinked", os.path.join(core.VERIF, "sim", "c12", "schemas", "symlinked", "catalog"), False, 3),
+        ("dtd_default_ns", f"{fx}/dtd/default_namespace.dtd", False, 1),
+        ("dtd_prefix_ns", f"{fx}/dtd/prefix_namespace.dtd", False, 1),
+        ("dtd_feed", os.path.join(core.VERIF, "sim", "c12", "dtd", "feed.dtd"), False, 2),
+        ("dtd_notes", os.path.join(core.VERIF, "sim", "c12", "dtd", "notes.dtd"), False, 2),
+        ("dtd_dir", os.path.join(core.VERIF, "sim", "c12", "dtd"), False, 2),
+        ("wsdl_orders", os.path.join(core.VERIF, "sim", "c12", "wsdl", "orders.wsdl"), False, 3),
+        ("twisted_json", os.path.join(core.VERIF, "sim", "c12", "samples", "twisted_json"), False, 2),
+        ("twisted_xml", os.path.join(core.VERIF, "sim", "c12", "samples", "twisted_xml"), False, 2),
     ]
     for k in range(1, 9):
         cands.append((f"gen{k}", os.path.join(core.VERIF, "sim", "c12", "schemas", f"gen{k}"), False, 1))
@@ -125,6 +135,11 @@ def gen_env(rng, srcs):
         }
     if rng.random() < 0.2:
         env["source_copy"] = rng.choice(["mirror/www.w3.org/schemas", "checkout/src", "a b/ü-dir", "x.xsd/json", "deep/" * 6 + "d"])
+    if rng.random() < 0.3:
+        # the version stamp of a project file written by another release; it is not an option
+        env["config_version"] = rng.choice(["24.1", "23.8", "99.1", "", "unknown"])
+    if rng.random() < 0.1:
+        env["optimize"] = 1  # python -O
     if env.get("history") and rng.random() < 0.3:
         env["history_same_package"] = 1  # an earlier generation into the same package name from another directory
     return env
@@ -157,7 +172,7 @@ def run_child(source, recursive, params, env, timeout=600.0):
         penv.update({"LC_ALL": "C.UTF-8", "TZ": "UTC", "COLUMNS": "80", "USER": "verif", "HOME": "/nonexistent"})
         penv.update(env.get("environ") or {})
         penv["PYTHONDONTWRITEBYTECODE"] = "1"
-        cmd = [sys.executable, os.path.join(core.VERIF, "sim", "c12_child.py")]
+        cmd = [sys.executable] + (["-O"] if env.get("optimize") else []) + [os.path.join(core.VERIF, "sim", "c12_child.py")]
         setarch = shutil.which("setarch")
         if setarch:
             cmd = [setarch, os.uname().machine, "-R"] + cmd
